@@ -89,6 +89,24 @@ def sqEuclid [Add K] [Sub K] [Zero K] [Mul K] {n D : Nat} (X : Mat n D K) (i j :
 /-- pairwise squared distances between the rows of an embedding: the level at which two embeddings are compared -/
 def rowSqDist [Add K] [Sub K] [Zero K] [Mul K] {n d : Nat} (Y : Mat n d K) : Mat n n K := sqEuclid Y
 
+/-! ### how the kernel-based local methods see the data -/
+
+/-- `KernelDistance::distance` squared (neighbors.hpp): `κ(l,l) − 2·κ(l,r) + κ(r,r)` — what the neighbour search of
+    KLLE, KLTSA, HLLE, NPE, LLTSA compares -/
+def kernelSqDist [Add K] [Sub K] [Mul K] [NatCast K] {n : Nat} (κ : Fin n → Fin n → K) (l r : Fin n) : K :=
+  κ l l - ((2 : Nat) : K) * κ l r + κ r r
+
+/-- the local Gram matrix of `linear_weight_matrix` (KLLE, NPE) for sample `q` with neighbours `nb`:
+    `kernel_value − dots(a) − dots(b) + κ(nb a, nb b)` -/
+def lleLocalGram [Add K] [Sub K] {n k : Nat} (κ : Fin n → Fin n → K) (q : Fin n) (nb : Fin k → Fin n) : Mat k k K :=
+  fun a b => κ q q - κ q (nb a) - κ q (nb b) + κ (nb a) (nb b)
+
+/-- the local step of `tangent_weight_matrix` / `hessian_weight_matrix` (KLTSA, LLTSA, HLLE): the kernel values
+    among the neighbours, then `centerMatrix(gram_matrix)` -/
+def localCenteredGram [Add K] [Sub K] [Zero K] [Div K] [NatCast K] [Mul K] {n k : Nat} (κ : Fin n → Fin n → K)
+    (nb : Fin k → Fin n) : Mat k k K :=
+  centerMatrix fun a b => κ (nb a) (nb b)
+
 /-! ### eigen-systems (the eigensolver is a parameter with a contract, DESIGN §1) -/
 
 /-- `(V, lam)` is an orthonormal eigen-system of `B`: `B V = V diag(lam)` and `Vᵀ V = 1` -/
